@@ -114,4 +114,79 @@ theorem exit_kills_brand {T : Table} (hok : T.ok = true) {st : State} (hr : Reac
   have := (List.mem_filter.mp h).2
   simp at this
 
+/-! ## "For good": what happens after a callback has returned -/
+
+/-- Any number of further steps. -/
+inductive Steps (T : Table) : State → State → Prop where
+  | refl (st : State) : Steps T st st
+  | tail {st st' st'' : State} : Steps T st st' → Step T st' st'' → Steps T st st''
+
+theorem reachable_steps {T : Table} {st st' : State} (hr : Reachable T st) (hs : Steps T st st') :
+    Reachable T st' := by
+  induction hs with
+  | refl => exact hr
+  | tail _ h ih => exact .step ih h
+
+/-- A brand that was opened and is no longer active stays that way: it can never be re-entered
+(`enter` needs a brand that was never opened), `opened` only grows and only `enter` extends
+`active`. -/
+theorem step_dead {T : Table} {st st' : State} {b : Brand} (ho : b ∈ st.opened) (hna : b ∉ st.active)
+    (hs : Step T st st') : b ∈ st'.opened ∧ b ∉ st'.active := by
+  cases hs with
+  | enter b' fresh =>
+    refine ⟨List.mem_cons_of_mem _ ho, ?_⟩
+    intro h
+    rcases List.mem_cons.mp h with rfl | h
+    · exact fresh ho
+    · exact hna h
+  | exit b' rest top =>
+    refine ⟨ho, ?_⟩
+    intro h
+    exact hna (by rw [top]; exact List.mem_cons_of_mem _ h)
+  | call s σ mem callable inputs => exact ⟨ho, hna⟩
+  | forget held' sub => exact ⟨ho, hna⟩
+
+theorem steps_dead {T : Table} {st st' : State} {b : Brand} (ho : b ∈ st.opened) (hna : b ∉ st.active)
+    (hs : Steps T st st') : b ∈ st'.opened ∧ b ∉ st'.active := by
+  induction hs with
+  | refl => exact ⟨ho, hna⟩
+  | tail _ h ih => exact step_dead ih.1 ih.2 h
+
+/-- **The escape clause over the programs of the flow model** (every table with `Table.ok`).
+In every reachable state:
+
+1. *outlive / `'static` location*: whatever the program holds has the brand of a callback that is
+   executing right now, and that brand was introduced by a callback – never `'static`, never an
+   outer region;
+2. *return from the callback*: when the innermost callback returns, nothing of its brand is left,
+   and in **every** later state of the program the brand is neither held nor active again;
+3. *different arena*: every call the program can make now involves one brand only – all branded
+   inputs and all branded results have the same brand – and it is the brand of an executing
+   callback. -/
+theorem no_escape_of_table_ok {T : Table} (hok : T.ok = true) {st : State} (hr : Reachable T st) :
+    (∀ b ∈ st.held, b ∈ st.active ∧ b ∈ st.opened) ∧
+    (∀ (b : Brand) (rest : List Brand), st.active = b :: rest →
+      ∀ st', Steps T { st with active := rest, held := st.held.filter (· != b) } st' →
+        b ∉ st'.held ∧ b ∉ st'.active) ∧
+    (∀ (s : Sig) (σ : Subst), s ∈ T.sigs → s.callable = true → (∀ l ∈ s.inBrands, σ l ∈ st.held) →
+      ∀ b ∈ s.brands.map σ, b ∈ st.active ∧ ∀ b' ∈ s.brands.map σ, b' = b) := by
+  have hi := reachable_inv hok hr
+  refine ⟨fun b hb => ⟨hi.held_active b hb, hi.active_opened b (hi.held_active b hb)⟩, ?_, ?_⟩
+  · intro b rest top st' hs
+    have hex : Step T st { st with active := rest, held := st.held.filter (· != b) } :=
+      .exit st b rest top
+    have hk := exit_kills_brand hok hr b rest top
+    have hd := steps_dead (T := T) (st := { st with active := rest, held := st.held.filter (· != b) })
+      (b := b) hk.2.2 hk.1 hs
+    have hi' := reachable_inv hok (reachable_steps (.step hr hex) hs)
+    exact ⟨fun h => hd.2 (hi'.held_active b h), hd.2⟩
+  · intro s σ mem hc inputs b hb
+    have hs := Table.sig_ok hok mem
+    have hact : b ∈ st.active := by
+      obtain ⟨l, hl, rfl⟩ := List.mem_map.mp hb
+      rcases List.mem_append.mp hl with hin | hout
+      · exact hi.held_active _ (inputs l hin)
+      · exact hi.held_active _ (inputs l (Sig.out_mem_in hs hc hout))
+    exact ⟨hact, fun b' hb' => call_single_arena hs hc σ hb' hb⟩
+
 end GcArena.BrandFlow
